@@ -66,3 +66,67 @@ def obligations_scalar(ctx, classes):
                                  + ("" if same else " (differs from the committed snapshot coqgen/Scalar_Gen.v)")}
         finally:
             shutil.rmtree(d, ignore_errors=True)
+
+
+def obligations_validate(ctx):
+    """Re-translate StreamingDetector / BatchDetector ._validate_X / ._validate_y of the tree under test
+    (tools/py2coq_validate.py) and re-check coqgen/Validate_Gen_Proofs.v against the fresh translation: the translated
+    validators ARE the hand-written model coq/Validate.v on every state and input, and raise nothing but ValueError.
+    unsupported / ill-typed -> ok None, broken proof -> ok False."""
+    repo = os.environ.get("VERIF_REPO", "/repo")
+    tool = os.path.join(coqrun.VERIF, "tools", "py2coq_validate.py")
+    d = os.path.join(coqrun.BUILD, "validate", f"gen.{os.getpid()}")
+    shutil.rmtree(d, ignore_errors=True)
+    os.makedirs(d)
+    try:
+        r = subprocess.run([sys.executable, tool, repo, os.path.join(d, "Validate_Gen.v")],
+                           capture_output=True, text=True, timeout=120)
+        if r.returncode != 0:
+            yield {"name": "py2coq_validate", "ok": None,
+                   "detail": "translation not applicable: " + (r.stderr.strip() or r.stdout.strip())[-300:]}
+            return
+        shutil.copy(os.path.join(coqrun.VERIF, "coqgen", "Validate_Gen_Proofs.v"), d)
+        text = open(os.path.join(d, "Validate_Gen_Proofs.v")).read()
+        hits = [l.strip() for l in text.splitlines()
+                if re.search(r"\b(Admitted|admit|Axiom|Parameter|Conjecture|Abort)\b|Unset Guard|bypass_check|native_compute", l)
+                and not l.strip().startswith("(*")]
+        if hits:
+            yield {"name": "Validate_Gen_Proofs", "ok": False, "detail": f"forbidden constructs: {hits[:3]}"}
+            return
+        args = ["coqc", "-Q", coqrun.COQ, "MV", "-Q", ".", "MVG"]
+        r = subprocess.run(args + ["Validate_Gen.v"], cwd=d, capture_output=True, text=True, timeout=300)
+        if r.returncode != 0:
+            yield {"name": "py2coq_validate", "ok": None,
+                   "detail": "translation not applicable: the generated Gallina does not type-check: " + (r.stdout + r.stderr)[-300:]}
+            return
+        r = subprocess.run(args + ["Validate_Gen_Proofs.v"], cwd=d, capture_output=True, text=True, timeout=900)
+        out = r.stdout + r.stderr
+        if r.returncode != 0:
+            # search (vm_compute over a grid of states x inputs; not a proof) for a concrete point where the translated
+            # source and the model differ - it goes into the replay of the broken obligation
+            wit = ""
+            try:
+                shutil.copy(os.path.join(coqrun.VERIF, "coqgen", "Validate_Gen_Search.v"), d)
+                rs = subprocess.run(args + ["Validate_Gen_Search.v"], cwd=d, capture_output=True, text=True, timeout=300)
+                found = [re.sub(r"\s+", " ", m) for m in re.findall(r"= (\(\"[\w\.]+\",\s*Some.*?)\n\s+:", rs.stdout, re.S)]
+                wit = ("; translated source and model differ at (method, (state, input, (translated result, no-other-exception, model result))): "
+                       + " | ".join(found)) if found else "; no differing point on the search grid"
+            except Exception as e:
+                wit = f"; witness search not evaluable ({type(e).__name__})"
+            yield {"name": "Validate_Gen_Proofs (translation of the current detector.py validators = Validate.v, every state and input)",
+                   "ok": False,
+                   "detail": "the equivalence proof no longer checks against the re-translated source: " + out[-300:] + wit}
+            return
+        names = re.findall(r"^Print Assumptions (\w+)\.", text, re.M)
+        closed = out.count("Closed under the global context")
+        if closed != len(names):
+            yield {"name": "Validate_Gen_Proofs", "ok": False,
+                   "detail": f"{len(names) - closed} of {len(names)} theorems depend on axioms: " + out[-400:]}
+            return
+        same = open(os.path.join(d, "Validate_Gen.v")).read() == open(os.path.join(coqrun.VERIF, "coqgen", "Validate_Gen.v")).read()
+        for n in names:
+            yield {"name": "MVG.Validate_Gen_Proofs." + n, "ok": True,
+                   "detail": f"closed under the global context; checked against the translation of menelaus/detector.py in {repo}"
+                             + ("" if same else " (differs from the committed snapshot coqgen/Validate_Gen.v)")}
+    finally:
+        shutil.rmtree(d, ignore_errors=True)
